@@ -32,6 +32,16 @@ Proof. apply has_weaken. reflexivity. Qed.
 Lemma callt_has_read f : has f callt_required = true -> has f ReadStates = true.
 Proof. apply has_weaken. reflexivity. Qed.
 
+Lemma callback_flags_sub f r : subflags (callback_flags f r) f = true.
+Proof.
+  apply has_spec. intros n. unfold callback_flags. rewrite N.land_spec. intros H. apply andb_true_iff in H. tauto.
+Qed.
+
+Lemma callback_flags_requested f r : subflags (callback_flags f r) r = true.
+Proof.
+  apply has_spec. intros n. unfold callback_flags. rewrite N.land_spec. intros H. apply andb_true_iff in H. tauto.
+Qed.
+
 Lemma callee_flags_sub f r s : subflags (callee_flags f r s) f = true.
 Proof.
   apply has_spec. intros n. unfold callee_flags. rewrite N.land_spec. intros H. apply andb_true_iff in H. tauto.
@@ -263,6 +273,7 @@ Section instr_induction.
   Hypothesis Hnat : forall c m a r, P (INative c m a r).
   Hypothesis Hcall : forall r s body, Forall P body -> P (ICall r s body).
   Hypothesis Hcallt : forall r s body, Forall P body -> P (ICallT r s body).
+  Hypothesis Hcb : forall g r body, Forall P body -> P (ICallback g r body).
   Hypothesis Hload : forall r body, Forall P body -> P (ILoad r body).
   Fixpoint instr_ind2 (i : instr) : P i :=
     match i with
@@ -271,6 +282,8 @@ Section instr_induction.
     | ICall r s body => Hcall r s body ((fix go (l : list instr) : Forall P l :=
                            match l with [] => Forall_nil P | x :: t => Forall_cons x (instr_ind2 x) (go t) end) body)
     | ICallT r s body => Hcallt r s body ((fix go (l : list instr) : Forall P l :=
+                           match l with [] => Forall_nil P | x :: t => Forall_cons x (instr_ind2 x) (go t) end) body)
+    | ICallback g r body => Hcb g r body ((fix go (l : list instr) : Forall P l :=
                            match l with [] => Forall_nil P | x :: t => Forall_cons x (instr_ind2 x) (go t) end) body)
     | ILoad r body => Hload r body ((fix go (l : list instr) : Forall P l :=
                            match l with [] => Forall_nil P | x :: t => Forall_cons x (instr_ind2 x) (go t) end) body)
@@ -284,6 +297,7 @@ Fixpoint f39_free (i : instr) : bool :=
   | INative c m _ _ => negb (is_native_indirect_caller c m)
   | ICall _ _ body => forallb f39_free body
   | ICallT _ _ body => forallb f39_free body
+  | ICallback gated _ body => gated && forallb f39_free body
   | ILoad _ body => forallb f39_free body
   end.
 
@@ -329,7 +343,7 @@ Section machine_proofs.
 
   Theorem effects_in_order : forall i f, f39_free i = true -> Forall (eff_ok f) (fst (exec itab ntab f i)).
   Proof.
-    induction i as [name | c m a r | r s body IH | r s body IH | r body IH] using instr_ind2; intros f Hfree; simpl.
+    induction i as [name | c m a r | r s body IH | r s body IH | gated r body IH | r body IH] using instr_ind2; intros f Hfree; simpl.
     - destruct (sys_step itab f name) eqn:S; simpl; [eapply sys_step_ok; eauto | constructor].
     - destruct (sys_step itab f "System.Contract.Call") as [tr0|] eqn:S; simpl; [|constructor].
       apply sys_step_ok in S.
@@ -358,6 +372,14 @@ Section machine_proofs.
       simpl in Hfree. rewrite forallb_forall in Hfree. rewrite Forall_forall in *. intros x Hx.
       specialize (IH x Hx (callee_flags f r s) (Hfree x Hx)). rewrite Forall_forall in *.
       intros y Hy. eapply eff_ok_weaken; [apply callee_flags_sub | apply IH; auto].
+    - simpl in Hfree. apply andb_true_iff in Hfree. destruct Hfree as [Hg Hfree]. subst gated. simpl.
+      destruct (has f AllowCall) eqn:G; simpl; [|constructor].
+      destruct (run_with _ body) as [tr ok] eqn:R. simpl. constructor.
+      { split; [apply subflags_refl | simpl; auto]. }
+      change tr with (fst (tr, ok)). rewrite <- R. apply run_with_Forall.
+      rewrite forallb_forall in Hfree. rewrite Forall_forall in *. intros x Hx.
+      specialize (IH x Hx (callback_flags f r) (Hfree x Hx)). rewrite Forall_forall in *.
+      intros y Hy. eapply eff_ok_weaken; [apply callback_flags_sub | apply IH; auto].
     - destruct (sys_step itab f "System.Runtime.LoadScript") as [tr0|] eqn:S; simpl; [|constructor].
       apply sys_step_ok in S.
       destruct (run_with _ body) as [tr ok] eqn:R. simpl. apply Forall_app; split; auto.
@@ -379,7 +401,7 @@ Section machine_proofs.
 
   Theorem writes_notifies_in_order : forall i f, Forall (eff_ok_wn f) (fst (exec itab ntab f i)).
   Proof.
-    induction i as [name | c m a r | r s body IH | r s body IH | r body IH] using instr_ind2; intros f; simpl.
+    induction i as [name | c m a r | r s body IH | r s body IH | gated r body IH | r body IH] using instr_ind2; intros f; simpl.
     - destruct (sys_step itab f name) eqn:S; simpl; [|constructor].
       eapply Forall_impl; [apply eff_ok_is_wn | eapply sys_step_ok; eauto].
     - destruct (sys_step itab f "System.Contract.Call") as [tr0|] eqn:S; simpl; [|constructor].
@@ -408,6 +430,13 @@ Section machine_proofs.
       rewrite Forall_forall in *. intros x Hx.
       specialize (IH x Hx (callee_flags f r s)). rewrite Forall_forall in *.
       intros y Hy. eapply eff_ok_wn_weaken; [apply callee_flags_sub | apply IH; auto].
+    - destruct (gated && negb (has f AllowCall)); simpl; [constructor|].
+      destruct (run_with _ body) as [tr ok] eqn:R. simpl. constructor.
+      { split; [apply subflags_refl | simpl; intros Hne; exfalso; apply Hne; reflexivity]. }
+      change tr with (fst (tr, ok)). rewrite <- R. apply run_with_Forall.
+      rewrite Forall_forall in *. intros x Hx.
+      specialize (IH x Hx (callback_flags f r)). rewrite Forall_forall in *.
+      intros y Hy. eapply eff_ok_wn_weaken; [apply callback_flags_sub | apply IH; auto].
     - destruct (sys_step itab f "System.Runtime.LoadScript") as [tr0|] eqn:S; simpl; [|constructor].
       apply sys_step_ok in S. apply (Forall_impl _ (eff_ok_is_wn f)) in S.
       destruct (run_with _ body) as [tr ok] eqn:R. simpl. apply Forall_app; split; auto.
@@ -530,7 +559,9 @@ Definition writes_notifies_in_order_now := writes_notifies_in_order interops nat
 
 (* a run started without AllowCall performs no call at all: its own frame cannot pass the gate of System.Contract.Call
    or System.Runtime.LoadScript, so no deeper frame exists (this top-level form holds without the F39 guard) *)
-Theorem no_call_without_flag_now : forall i f, has f AllowCall = false -> has_effect ECall (fst (exec_now f i)) = false.
+Theorem no_call_without_flag_now : forall i f,
+  (forall r body, i <> ICallback false r body) ->
+  has f AllowCall = false -> has_effect ECall (fst (exec_now f i)) = false.
 Proof.
   assert (forall f name tr, is_sys_caller name = true -> has f AllowCall = false ->
             sys_step interops f name = Some tr -> False) as Hgate.
@@ -542,7 +573,7 @@ Proof.
     unfold syscall_gate in G. assert (has f AllowCall = true) as H.
     { rewrite has_spec in *. intros n Hn'. apply G. apply Hca. exact Hn'. }
     rewrite H in Hf. discriminate. }
-  intros i f Hf. unfold exec_now. destruct i as [name | c m a r | r s body | r s body | r body]; simpl.
+  intros i f Hfree Hf. unfold exec_now. destruct i as [name | c m a r | r s body | r s body | gated r body | r body]; simpl.
   - destruct (sys_step interops f name) as [tr|] eqn:S; simpl; auto.
     destruct (has_effect ECall tr) eqn:H; auto. apply has_effect_In in H. destruct H as [g Hin].
     pose proof (sys_step_ok interops itab_now _ _ _ S) as Hall. rewrite Forall_forall in Hall.
@@ -553,8 +584,25 @@ Proof.
     exfalso. eapply Hgate; eauto. reflexivity.
   - destruct (has f callt_required) eqn:G; simpl; auto.
     apply callt_has_call in G. congruence.
+  - destruct gated; [rewrite Hf; reflexivity | exfalso; eapply Hfree; reflexivity].
   - destruct (sys_step interops f "System.Runtime.LoadScript") as [tr0|] eqn:S; simpl; auto.
     exfalso. eapply Hgate; eauto. reflexivity.
+Qed.
+
+(* native -> contract callbacks: NO guard.  Whatever the native method and whether or not its frame has AllowCall
+   (F39), the callback and everything below it run within the native frame's flags and within what the native asked
+   for; every write / notification below it has its bit in those flags. *)
+Theorem callback_flags_shrink : forall f gated r body,
+  let g := callback_flags f r in
+  subflags g f = true /\ subflags g r = true /\
+  Forall (eff_ok_wn g) (fst (run_with (exec_now g) body)) /\
+  Forall (eff_ok_wn f) (fst (exec_now f (ICallback gated r body))).
+Proof.
+  intros f gated r body g. repeat split.
+  - apply callback_flags_sub.
+  - apply callback_flags_requested.
+  - apply run_with_Forall. rewrite Forall_forall. intros x _. apply writes_notifies_in_order_now.
+  - apply writes_notifies_in_order_now.
 Qed.
 
 (* CALLT needs both ReadStates and AllowCall in the executing frame, whatever the token says *)
